@@ -5,6 +5,7 @@ package verifharness
 import (
 	"context"
 	"fmt"
+	"io"
 	"math/rand"
 	"strings"
 	"sync"
@@ -471,6 +472,105 @@ func TestC04Sys(t *testing.T) {
 			}
 		}
 		idx += 2
+		stEnd(em, first)
+	}
+}
+
+// Sequences of >= 17 unary calls on ONE served connection (scripted peer, real
+// server): per-worker or per-connection state carried from one call to the
+// next must not leak into a later reply. Every reply's header and trailer lists
+// are judged exactly, on the wire.
+func TestC04UnarySeq(t *testing.T) {
+	em := NewEmitter()
+	defer em.Close()
+	r := newRand(4046)
+	idx := 0
+	nseq := 3
+	if thorough() {
+		nseq = 30
+	}
+	for seq := 0; seq < nseq; seq++ {
+		ncalls := 17 + r.Intn(10)
+		if !anyWanted(idx, 2*ncalls) {
+			idx += 2 * ncalls
+			continue
+		}
+		stBegin(em, idx)
+		first := idx
+		pool := c04KeyPool(r, 4) // few keys: later calls reuse the keys of earlier ones
+		type call struct {
+			hs, ts []metadata.MD
+			fail   bool
+			method string
+		}
+		calls := make([]call, ncalls)
+		for i := range calls {
+			c := &calls[i]
+			c.method = []string{"/verif.Echo/Unary", "/verif.Echo/Unary2"}[r.Intn(2)]
+			c.fail = r.Intn(4) == 0
+			for j := 0; j < r.Intn(3); j++ {
+				c.hs = append(c.hs, c04MDFrom(r, pool, 3))
+			}
+			if i%3 != 2 { // some calls set no trailer at all
+				for j := 0; j < 1+r.Intn(2); j++ {
+					c.ts = append(c.ts, c04MDFrom(r, pool, 3))
+				}
+			}
+		}
+		cur := 0
+		impl := &echoImpl{unary: func(ctx context.Context, req []byte) ([]byte, bool, error) {
+			c := calls[cur]
+			for _, md := range c.hs {
+				grpc.SetHeader(ctx, md)
+			}
+			for _, md := range c.ts {
+				grpc.SetTrailer(ctx, md)
+			}
+			if c.fail {
+				return nil, false, status.Error(codes.Aborted, "no")
+			}
+			return req, true, nil
+		}}
+		var replies []*Rpc
+		bubble(t, func(t *testing.T) {
+			ep := NewEndpoint("s")
+			srv := newEchoServer("dst", impl)
+			ret := make(chan error, 1)
+			go func() { ret <- srv.Serve(context.Background(), ep) }()
+			body, _ := protoMarshal(bv([]byte("q")))
+			for i := range calls {
+				cur = i
+				ep.Deliver(&Rpc{Id: uint64(100 + i), Header: hdr(calls[i].method, "src", "dst"), Body: &goatorepo.Body{Data: body}})
+				synctest.Wait()
+			}
+			replies = ep.WrittenCopy()
+			ep.FailRead(io.EOF)
+			synctest.Wait()
+			<-ret
+		})
+		for i, c := range calls {
+			var rep *Rpc
+			for _, w := range replies {
+				if w.Id == uint64(100+i) {
+					rep = w
+				}
+			}
+			hw, tw := rep.GetHeader().GetHeaders(), rep.GetTrailer().GetMetadata()
+			hmd, herr := internal.ToMetadata(hw)
+			tmd, terr := internal.ToMetadata(tw)
+			desc := map[string]any{"seq": seq, "call": i, "of": ncalls, "method": c.method, "fail": c.fail}
+			tags := []string{"seq:unary-calls-on-one-connection", fmt.Sprintf("seq:call>=9=%v", i >= 8), fmt.Sprintf("seq:sets-trailer=%v", len(c.ts) > 0)}
+			if want(idx) {
+				em.Emit(Rec{Idx: idx, Kind: "seq-unary-header", Desc: desc, Tags: tags,
+					Coq: fmt.Sprintf("CSysResp 0 %s %s %s false %s", coqMDs(c.hs), orderTerms(hw), coqKVs(hw), coqOpt(rep != nil && herr == nil, coqMD(hmd)))})
+			}
+			idx++
+			if want(idx) {
+				em.Emit(Rec{Idx: idx, Kind: "seq-unary-trailer", Desc: desc, Tags: tags,
+					Coq: fmt.Sprintf("CSysResp 1 %s %s %s false %s", coqMDs(c.ts), orderTerms(tw), coqKVs(tw), coqOpt(rep != nil && terr == nil, coqMD(tmd)))})
+			}
+			idx++
+		}
 		stEnd(em, first)
 	}
 }
